@@ -77,13 +77,15 @@ theorem C13_tables_match_spec :
   decide +kernel
 
 /-- The extracted tables are well formed: within a frame no id is dispatched twice, ids are
-positive 16-bit, struct (non-union) writers emit ids in strictly increasing order (so every
+positive 16-bit, struct (non-union: the frame of a `switch` over a union lists alternatives, whose order in the
+source does not matter) writers emit ids in strictly increasing order (so every
 header they write is the short form), every parser frame handles every id its writer frame
 emits, and the model uses the limits and nesting bound the source defines. -/
 theorem C13_tables_wellformed :
     Gen.ThriftSchema.parsers.all (fun fr => fr.2.Nodup && fr.2.all (fun id => decide (0 < id ∧ id < 32768))) = true ∧
     Gen.ThriftSchema.writers.all (fun fr => (fr.2.map (·.1)).Nodup && fr.2.all (fun f => decide (0 < f.1 ∧ f.1 < 32768))) = true ∧
-    (Gen.ThriftSchema.writers.filter (fun fr => fr.1 ≠ "parquet_write_page_header")).all
+    (Gen.ThriftSchema.writers.filter (fun fr => fr.1 ≠ "parquet_write_page_header" &&
+        (match specOfFrame fr.1 with | some s => !s.isUnion | none => true))).all
       (fun fr => strictlyIncreasing (fr.2.map (·.1))) = true ∧
     Gen.ThriftSchema.writers.all (fun fr =>
       fr.2.isEmpty ||
